@@ -294,12 +294,12 @@ func runBoundaryStreams(c *run.Ctx, r *kit.Rng, s *kit.Summary, cd codec, n int)
 				bad = !gen.SameResult(&got[q], &rs[q])
 			}
 			if bad {
-				kind := "prefix_missing_record"
+				vkind := "prefix_missing_record"
 				if len(got) > want {
-					kind = "prefix_extra_record"
+					vkind = "prefix_extra_record"
 				}
-				s.Violate(kit.Violation{Kind: kind, What: "a (cut) stream read through the format detection (DecoderFor) does not yield exactly the records completely written before the cut",
-					Input:    map[string]interface{}{"codec": cd.name, "read_through": "vegeta.DecoderFor", "body_sizes": bodySizes(rs), "big_field": kindOf(i), "large_record_index": k, "cut": cut, "stream_len": len(st.data), "record_ends": st.bounds},
+				s.Violate(kit.Violation{Kind: vkind, What: "a (cut) stream read through the format detection (DecoderFor) does not yield exactly the records completely written before the cut",
+					Input:    map[string]interface{}{"codec": cd.name, "read_through": "vegeta.DecoderFor", "body_sizes": bodySizes(rs), "big_field": kind, "large_record_index": k, "cut": cut, "stream_len": len(st.data), "record_ends": st.bounds},
 					Expected: fmt.Sprintf("%d records then eof/error", want), Observed: fmt.Sprintf("%d records then %s", len(got), term), Key: map[string]interface{}{"codec": cd.name, "decoder_for": true}})
 				break
 			}
@@ -316,7 +316,7 @@ func runBoundaryStreams(c *run.Ctx, r *kit.Rng, s *kit.Summary, cd codec, n int)
 				os.WriteFile(in, st.data[:cut], 0o644)
 				os.Remove(out)
 				files = append(files, in, out)
-				cli = append(cli, cliJob{st, want, out, fmt.Sprintf("%s stream, large record (%s) at index %d, input cut at %d of %d bytes", cd.name, kindOf(i), k, cut, len(st.data))})
+				cli = append(cli, cliJob{st, want, out, fmt.Sprintf("%s stream, large record (%s) at index %d, input cut at %d of %d bytes", cd.name, kind, k, cut, len(st.data))})
 				ops = append(ops, "encode "+kit.HexS(cd.name)+" "+kit.HexS(out)+" "+kit.HexS(in))
 			}
 		}
